@@ -7,6 +7,9 @@ coordinate tuples is compared after every step."""
 from __future__ import annotations
 
 import math
+import zlib
+
+import mpmath
 
 import numpy
 from hypothesis import strategies as st
@@ -364,12 +367,111 @@ def cells(tier):
             for fa in "gm":
                 for sh in range(shards):
                     out.append({"id": f"{machine}|{d}|{fa}|{sh}", "machine": machine, "d": d, "fa": fa, "shard": sh})
+    for d in (2, 3, 4):
+        for i, sa in enumerate(R.SYSTEMS[d]):
+            out.append({"id": f"sympy|{d}{R.sysname(sa)}", "machine": "sympy", "d": d, "sa": R.sysname(sa), "fa": "gm"[i % 2]})
     return out
+
+
+def examples(cell, tier):
+    return 1 if tier == "quick" else 6
+
+
+def strategy(cell, tier):
+    one = st.fixed_dictionaries({"a": gen.vec(("moderate", "octant")), "b": gen.vec(("moderate", "octant")), "k": st.floats(0.2, 4.0)})
+    return st.lists(one, min_size=4, max_size=4)
+
+
+def _sympy_inplace(cell, points, ctx):
+    """in-place operators of the SymPy backend (its own _replace_data): after v += w, v -= w, v *= k, v /= k the symbolic
+    vector keeps identity, class and coordinate system and its stored expressions evaluate to the functional result"""
+    import sympy
+
+    from vcheck.props import c08
+
+    d = cell["d"]
+    sa = opcheck.parse_system(cell["sa"])
+    sb = R.SYSTEMS[d][zlib.crc32(cell["id"].encode()) % len(R.SYSTEMS[d])]
+    mom = cell["fa"] == "m"
+    variant = f"{d}{cell['sa']}"
+
+    def fail(kind, msg, opname):
+        ctx.fail(kind, f"[sympy {variant}; other {R.sysname(sb)}] {msg}", op=opname, variant=variant, backend="sympy")
+
+    for opname in ("+=", "-=", "*=", "/="):
+        V, syms_a = c08._sympy_vec(sa, "a", mom)
+        W, syms_b = c08._sympy_vec(sb, "b", False)
+        k = sympy.Symbol("k", positive=True)
+        ident, cls = id(V), type(V)
+        ctx.evaluation()
+        try:
+            if opname == "+=":
+                V += W
+            elif opname == "-=":
+                V -= W
+            elif opname == "*=":
+                V *= k
+            else:
+                V /= k
+        except Exception as e:  # noqa: BLE001
+            fail("inplace_raises", f"v {opname} ... raised {type(e).__name__}: {e!s:.200}", opname)
+            continue
+        if id(V) != ident or type(V) is not cls:
+            fail("identity", f"v {opname} ... rebound the name to a different object ({type(V).__name__})", opname)
+            continue
+        if obs.system_of(V) != sa:
+            fail("coordinate_type", f"after v {opname} ... the vector is stored as {obs.system_of(V)}", opname)
+            continue
+        comps = list(obs.stored(V))
+        allsyms = syms_a + syms_b + [k]
+        try:
+            funcs = [sympy.lambdify(allsyms, c, modules="mpmath") for c in comps]
+        except Exception as e:  # noqa: BLE001
+            fail("exception", f"lambdify raised {type(e).__name__}: {e!s:.200}", opname)
+            continue
+        for p in points:
+            a = tuple(mpf(x) for x in p["a"]["c"][:d])
+            b = tuple(mpf(x) for x in p["b"]["c"][:d])
+            kv = mpf(p["k"])
+
+            def regular(c):
+                return R.rho2(c) > (mpf("1e-3") * R.scale_of(c)) ** 2 and (len(c) < 4 or (c[3] > 0 and R.tau2(c) > mpf("1e-3") * c[3] ** 2))
+
+            ref = {"+=": R.add(a, b), "-=": R.subtract(a, b), "*=": R.scale(a, kv), "/=": R.scale(a, 1 / kv)}[opname]
+            if not (regular(a) and regular(b) and regular(ref)):
+                ctx.exclude("outside_sympy_domain")
+                continue
+            if not R.representable(sa, a) or not R.representable(sb, b) or not R.representable(sa, ref):
+                ctx.exclude("operand_not_representable")
+                continue
+            vals = list(R.from_cartesian(sa, a)) + list(R.from_cartesian(sb, b)) + [kv]
+            try:
+                got = [f(*vals) for f in funcs]
+                got = [mpf(g.real) if isinstance(g, mpmath.mpc) and abs(g.imag) < mpf("1e-45") else g for g in got]
+            except ZeroDivisionError:
+                ctx.exclude("mp_singular")
+                continue
+            if any(isinstance(g, mpmath.mpc) for g in got):
+                fail("complex", f"after v {opname} ... a stored coordinate evaluates to a complex number at a={opcheck.fmt(a)} b={opcheck.fmt(b)}", opname)
+                break
+            ctx.evaluation()
+            if not opcheck.vec_equiv(sa, tuple(mpf(g) for g in got), ref, opcheck.MP_TOL, R.scale_of(a, b, ref)):
+                fail("inplace_value", f"after v {opname} {'w' if opname in ('+=', '-=') else 'k'} the stored coordinates evaluate to "
+                     f"{R.sysname(sa)}{opcheck.fmt(got)} = {opcheck.fmt(R.to_cartesian(sa, tuple(mpf(g) for g in got)))} but the functional "
+                     f"result is {opcheck.fmt(ref)}; a={opcheck.fmt(a)} b={opcheck.fmt(b)} k={opcheck.fmt(kv)}", opname)
+                break
+            ctx.nontrivial(key=[cell["id"], opname, p], sample={"op": opname, "a": p["a"]["c"][:d], "b": p["b"]["c"][:d], "stored": R.sysname(sa)})
+    ctx.evaluations -= 1
 
 
 def run_cell(cell, tier, ctx):
     import hypothesis
     from hypothesis import HealthCheck, settings
+
+    if cell["machine"] == "sympy":
+        import sys
+
+        return runner.default_run_cell(sys.modules[__name__], cell, tier, ctx)
 
     n = (40 if cell["machine"] == "f64" else 25) if tier == "quick" else 600
     steps = 30 if tier == "quick" else 60
@@ -429,6 +531,9 @@ def replay(cell, case, ctx):
 
 
 def check_case(cell, case, ctx):
+    if cell.get("machine") == "sympy":
+        _sympy_inplace(cell, case, ctx)
+        return
     replay(cell, case, ctx)
 
 
